@@ -25,13 +25,27 @@ LEVEL = 'proof'
 PROPS_MODULES = ['RTV.Props.C05']
 GEN = ['chartables']
 REQUIRED_THEOREMS = ['unitmap_lookup', 'unitmap_listed', 'key_assembly_suffix', 'key_assembly_prefix',
-                     'parse_suffix_unit', 'compound_value_exact']
+                     'parse_suffix_unit', 'compound_value_exact',
+                     # the extractor (RTV.Model.UnitExtract)
+                     'nwu_longest_suffix_wins', 'nwu_furthest_reach_partial', 'nwu_furthest_reach_counterexample',
+                     'nwu_suffix_span', 'nwu_prefix_span', 'nwu_result_text_is_slice', 'nwu_result_text_is_slice_full',
+                     'nwu_relative_number_start', 'extract_then_parse_unit', 'select_no_conflict_identity',
+                     'select_results_from_input', 'select_returns_partial', 'select_misaligned_raises',
+                     'nwu_prefix_only_suppressed_witness']
 RULE = ('exhaustive over every (culture, model, prefix|suffix, unit, spelling) row of the tables wired into the registered '
         'NumberWithUnit models (first extractor/parser pair of each model) × numerals {7} (quick) or {7, 1,234, 0.5 in the '
         'culture\'s marks} (thorough); all main/fraction pairs of CurrencyFractionMapping with an English spelling × '
-        'N in {1,5,1999} × M; non-trivial = distinct row that produced at least one entity')
-ASSUMPTIONS = ['the extractor (StringMatcher + number extractor + ambiguity filters) is not modelled: rows reach the parser '
-               'through the real extractor in the pipeline tier and through hand-built extract results in the unit tier',
+        'N in {1,5,1999} × M; non-trivial = distinct row that produced at least one entity; extractor unit level: every '
+        'row × every extractor/parser pair of every registered model + seeded multi-entity sentences (160 per pair quick, '
+        '1500 thorough) through the recorded real NumberWithUnitExtractor.extract')
+ASSUMPTIONS = ['NumberWithUnitExtractor.extract / _extract_separate_units / _select_candidates / expand_half_suffix are modelled '
+               '(RTV.Model.UnitExtract) as a function of their inputs from un-modelled parts, which are PARAMETERS of the '
+               'model and universally quantified in the theorems: StringMatcher results (the matcher itself is C16), the '
+               'number extractor\'s results, the matches of non_unit_regex / separate_regex / '
+               'ambiguous_unit_number_multiplier_regex / half_unit_regex, the keep-masks of the two _filter_ambiguity '
+               'calls; the correspondence records them on every replayed call',
+               'BaseMergedUnitExtractor grouping (__merge_pure_number / __merged_compound_units) is not modelled: covered '
+               'by the compound-currency pipeline family only',
                'str.lower is modelled per code point (final-sigma rule not modelled)']
 CJK = ('zh-cn', 'ja-jp')
 
